@@ -430,8 +430,7 @@ fn program_case(ctx: &mut Ctx, plan: &Plan, program: bool, tag: &str) {
             // the model's parser on the rendered text and on mutations inside the flat grammar
             let jets = progs::jet_types(plan);
             parse_op(ctx, &round.text, &jets, "rendered");
-            let n_mut = if ctx.rng.chance(1, 2) { 2 } else { 0 };
-            for _ in 0..n_mut {
+            for _ in 0..(1 + ctx.rng.below(2)) {
                 if let Some((m, kind)) = mutate_flat(&mut ctx.rng, &round.text) {
                     parse_op(ctx, &m, &jets, kind);
                 }
@@ -461,7 +460,8 @@ fn parse_op(ctx: &mut Ctx, text: &str, jets: &str, kind: &str) {
             }
         }
     };
-    ctx.count(&format!("reach:parse-{kind}-{}", if out.starts_with("ok") { "ok" } else { "err" }));
+    ctx.count(&format!("reach:parse-{kind}"));
+    ctx.count(&format!("n:parse-{kind}-{}", if out.starts_with("ok") { "ok" } else { "no" }));
     ctx.op(&format!("parse {}{}", hex_of(text), jets), &out);
 }
 
@@ -483,26 +483,34 @@ fn mutate_flat(r: &mut Rng, text: &str) -> Option<(String, &'static str)> {
     if lines.is_empty() {
         return None;
     }
-    let i = r.below(lines.len() as u64) as usize;
-    match r.below(8) {
+    let kind = r.below(8);
+    let applicable: Vec<usize> = (0..lines.len())
+        .filter(|i| {
+            let l = &lines[*i];
+            match kind {
+                1 => l.len() > 4 && matches!(l[2].as_str(), "comp" | "case" | "pair"),
+                5 => l[0] != "main",
+                6 => l.iter().any(|t| t.starts_with('#') || t.starts_with("0x")),
+                7 => l.len() > 3 && matches!(l[2].as_str(), "comp" | "case" | "pair" | "injl" | "injr" | "take" | "drop"),
+                _ => true,
+            }
+        })
+        .collect();
+    if applicable.is_empty() {
+        return None;
+    }
+    let i = *r.pick(&applicable);
+    match kind {
         0 => {
-            // permute the statements
             let j = r.below(lines.len() as u64) as usize;
             lines.swap(i, j);
             Some((unflat(&lines), "mut-reorder"))
         }
         1 => {
-            // swap the children of a binary combinator
-            let l = &mut lines[i];
-            if l.len() > 4 && matches!(l[2].as_str(), "comp" | "case" | "pair") {
-                l.swap(3, 4);
-                Some((unflat(&lines), "mut-swap-children"))
-            } else {
-                None
-            }
+            lines[i].swap(3, 4);
+            Some((unflat(&lines), "mut-swap-children"))
         }
         2 => {
-            // duplicate a statement
             let l = lines[i].clone();
             lines.push(l);
             Some((unflat(&lines), "mut-duplicate"))
@@ -512,25 +520,17 @@ fn mutate_flat(r: &mut Rng, text: &str) -> Option<(String, &'static str)> {
             Some((unflat(&lines), "mut-delete"))
         }
         4 => {
-            // change a type annotation
+            // change the target annotation
             let l = &mut lines[i];
             let k = l.iter().position(|t| t == "->")?;
             let repl = ["1", "2", "2^8", "(2 * 1)", "2?", "(1 + 2)"];
-            let at = if r.bool() { k + 1 } else { k - 1 };
-            if at < l.len() && l[at] != ":" {
-                l.truncate(k + 1);
-                l.push(r.pick(&repl).to_string());
-                Some((unflat(&lines), "mut-annotation"))
-            } else {
-                None
-            }
+            l.truncate(k + 1);
+            l.push(r.pick(&repl).to_string());
+            Some((unflat(&lines), "mut-annotation"))
         }
         5 => {
-            // rename one definition (references become missing) or consistently
+            // rename one definition (its references become missing) or consistently
             let old = lines[i][0].clone();
-            if old == "main" {
-                return None;
-            }
             let new = format!("{old}x");
             let all = r.bool();
             for l in lines.iter_mut() {
@@ -557,25 +557,25 @@ fn mutate_flat(r: &mut Rng, text: &str) -> Option<(String, &'static str)> {
             let j = r.below(lines.len() as u64) as usize;
             let name = lines[j][0].clone();
             let l = &mut lines[i];
-            if l.len() > 3 && matches!(l[2].as_str(), "comp" | "case" | "pair" | "injl" | "injr" | "take" | "drop") && !l[3].starts_with('#') {
-                l[3] = name;
-                Some((unflat(&lines), "mut-rewire"))
-            } else {
-                None
+            let at = if l.len() > 4 && !l[4].starts_with('#') && l[4] != ":" && r.bool() { 4 } else { 3 };
+            if l[at].starts_with('#') {
+                return None;
             }
+            l[at] = name;
+            Some((unflat(&lines), "mut-rewire"))
         }
     }
 }
 
 fn programs(ctx: &mut Ctx) {
-    let n = ctx.scale(700, 14_000);
+    let n = ctx.scale(450, 4_500);
     let mut it = 0u64;
     let mut done = 0;
     while done < n && it < 10 * n {
         it += 1;
         let jets = it % 3 == 0;
         let cfg = GenCfg {
-            fail: false,
+            fail: it % 3 != 0,
             jets,
             jet_pool: if jets && it % 2 == 0 { progs::simple_jets() } else { vec![] },
             pin_witness: it % 2 == 0,
@@ -616,7 +616,7 @@ fn programs(ctx: &mut Ctx) {
 /// inputs of the classes that are false on the pinned tree, each under its own class
 fn finding_probes(ctx: &mut Ctx) {
     let base = Plan { nodes: vec![PNode::Unit] };
-    for i in 0..ctx.scale(8, 40) {
+    for i in 0..ctx.scale(24, 80) {
         // fail entropy (once rendered without `0x`), leading digits of every kind
         let mut f = fail_extra(&mut ctx.rng);
         if let PNode::Fail(e) = &mut f[5] {
@@ -630,6 +630,24 @@ fn finding_probes(ctx: &mut Ctx) {
         program_case(ctx, &with_extra(&base, deep_extra(60 + 3 * i as usize)), true, "probe-deep-type");
     }
     // user names of the form the Namer generates (once defined twice in the rendering)
+    for k in 0..ctx.scale(20, 500) {
+        // every prefix of the Namer with the index the Namer will choose first
+        let pre = ["id", "ut", "jl", "jr", "dp", "tk", "cp", "cs", "pr", "jt"][k as usize % 10];
+        let body = match pre {
+            "id" => "comp iden X".to_string(),
+            "ut" => "comp X unit".to_string(),
+            "jl" => "comp (pair (injl X) X) unit".to_string(),
+            "jr" => "comp (pair (injr X) X) unit".to_string(),
+            "dp" => "comp (pair X X) (drop X)".to_string(),
+            "tk" => "comp (pair X X) (take X)".to_string(),
+            "cp" => "comp (comp X X) X".to_string(),
+            "cs" => "comp (pair (injl X) X) (case X X)".to_string(),
+            "pr" => "comp (pair X X) X".to_string(),
+            _ => "comp (pair (const 0x00) (const 0x01)) (comp jet_eq_8 X)".to_string(),
+        };
+        let src = format!("{pre}{} := unit\nmain := {}", 1 + k / 10 % 3, body.replace('X', &format!("{pre}{}", 1 + k / 10 % 3)));
+        source_case(ctx, &src, "probe-namer");
+    }
     for s in [
         "id1 := unit\nmain := comp iden id1",
         "ut2 := iden\nmain := comp ut2 unit",
@@ -1092,7 +1110,7 @@ fn source_case(ctx: &mut Ctx, text: &str, tag: &str) -> Option<Forest> {
 
 fn sources(ctx: &mut Ctx) {
     let menu = hidden_menu();
-    let n = ctx.scale(500, 10_000);
+    let n = ctx.scale(500, 6_000);
     let mut it = 0u64;
     let mut done = 0;
     while done < n && it < 10 * n {
@@ -1357,12 +1375,32 @@ fn arbitrary(ctx: &mut Ctx, seeds: &[String]) {
             arbitrary_case(ctx, &m, "mutation");
         }
     }
+    // one text per error kind of the parser, varied
+    for i in 0..ctx.scale(30, 500) {
+        for t in [
+            format!("prim{i} := unit\nmain := unit"),
+            "_ := unit\nmain := unit".to_string(),
+            format!("a{i} : 1 -> 2^{}\nmain := unit", 1 << (i % 12)),
+            format!("a := unit\na := iden : 2^{} -> _\nmain := a", 1 << (i % 9)),
+            format!("main := comp jet_nope{i} unit"),
+            format!("main := comp (const 0b{}) unit", "1".repeat(1 + (i as usize % 7))),
+            format!("main := fail 0x{}", "ab".repeat(1 + (i as usize % 70))),
+            format!("main := unit : 2^{} -> 1", 3 + i),
+            format!("main := unit : 2^{}{} -> 1", 5 + i, "0".repeat(12)),
+            format!("w := witness\nmain := comp (pair w w) unit -- {i}"),
+            format!("main := comp (disconnect iden unit) unit -- {i}"),
+            format!("main := comp ?h{i} unit"),
+            format!("x{i} := y{i}\ny{i} := x{i}\nmain := x{i}"),
+        ] {
+            arbitrary_case(ctx, &t, "error-kinds");
+        }
+    }
     // adversarial nesting, in process
     for shape in SHAPES {
         for n in [10usize, 100, 999, 1000, 1001, 1500] {
             let t = nested_text(shape, n);
-            arbitrary_case(ctx, &t, &format!("nesting-{shape}"));
-            ctx.count(&format!("reach:nesting-{n}"));
+            arbitrary_case(ctx, &t, "nesting-in-process");
+            ctx.count(&format!("n:nesting-{shape}-{n}"));
         }
     }
 }
@@ -1388,13 +1426,15 @@ fn start_children(ctx: &Ctx) -> Vec<std::thread::JoinHandle<ChildResult>> {
             "hash-brace" => (6_000, 40_000),
             _ => (5_000, 30_000),
         };
-        let n = if ctx.quick() { q } else { t };
-        let out_dir = ctx.out_dir.clone();
-        hs.push(std::thread::spawn(move || {
-            let t0 = Instant::now();
-            let r = child(&out_dir, shape, n, limit);
-            (*shape, n, r, t0.elapsed().as_secs_f64())
-        }));
+        let n0 = if ctx.quick() { q } else { t };
+        for n in [n0, n0 / 2, n0 / 4] {
+            let out_dir = ctx.out_dir.clone();
+            hs.push(std::thread::spawn(move || {
+                let t0 = Instant::now();
+                let r = child(&out_dir, shape, n, limit);
+                (*shape, n, r, t0.elapsed().as_secs_f64())
+            }));
+        }
     }
     hs
 }
